@@ -100,6 +100,8 @@ def canon(x):
 #   'str'    the string prefix+id (default)
 #   'int0'   the int id itself - candidate 0 is falsy (the library's own tests use int candidates)
 #   'empty0' candidate 0 is the empty string (a str, hence inside the documented Candidate type, and falsy), others as 'str'
+#   'tuple'  the pair (prefix, id): a hashable, orderable, non-string candidate (e.g. (name, party)); `'%s' % cand` and
+#            `extend(cand)` treat it as a sequence
 #   'person' votelib.candidate.Person objects (documented candidate type; compared and hashed by IDENTITY: a copy of one is a
 #            different candidate); an object the harness did not hand in decodes to id 999999 ("unknown candidate")
 NAME_MODE = 'str'
@@ -112,7 +114,8 @@ def _person(prefix, i):
     key = (prefix, i)
     if key not in _PERSONS:
         import votelib.candidate
-        p = votelib.candidate.Person(f'{prefix}{i}')
+        # candidacy numbers deliberately run AGAINST the ids (and against any order by votes the generators favour)
+        p = votelib.candidate.Person(f'{prefix}{i}', number=(7 * (50 - i)) % 53 + 1)
         _PERSONS[key] = p
         _PERSON_IDS[id(p)] = i
     return _PERSONS[key]
@@ -135,6 +138,8 @@ class Names:
             return ''
         if NAME_MODE == 'person':
             return _person(self.prefix, i)
+        if NAME_MODE == 'tuple':
+            return (self.prefix, i)
         return f'{self.prefix}{i}'
 
     def i(self, name):
@@ -144,6 +149,8 @@ class Names:
             return name
         if isinstance(name, str):
             return 0 if name == '' else int(name[len(self.prefix):])
+        if isinstance(name, tuple):
+            return name[1] if len(name) == 2 and name[0] == self.prefix and isinstance(name[1], int) else UNKNOWN_CANDIDATE
         return _PERSON_IDS.get(id(name), UNKNOWN_CANDIDATE)
 
 
